@@ -133,7 +133,14 @@ def runLine {σ : Type} (M : Machine σ) (s0 : σ) (ops : List Op) : String :=
           match probe M s' j with
           | (some p, s'') => go s'' rest ((showOut r ++ "|" ++ p) :: acc)
           | (none, _) => ("panic" :: showOut r :: acc).reverse
-  " ".intercalate (go s0 ops [])
+  let toks := go s0 ops []
+  -- first token: outcome summary  clean:0 | errs:<number of Err results> | panic:<index of the panicking op>
+  let summary :=
+    if toks.getLast? == some "panic" then s!"panic:{toks.length - 1}"
+    else
+      let n := (toks.filter (fun t => t.startsWith "e:")).length
+      if n == 0 then "clean:0" else s!"errs:{n}"
+  " ".intercalate (summary :: toks)
 
 def parseCase (line : String) : Option (String × Bytes × List Op) :=
   match words line with
@@ -161,7 +168,7 @@ def judge (case impl : String) : String :=
   let e := expected case
   let got := impl.trimAscii.toString
   if e == got then "ok" else
-  let et := e.splitOn " "; let gt := got.splitOn " "
+  let et := (e.splitOn " ").drop 1; let gt := (got.splitOn " ").drop 1   -- (summary token dropped)
   let opsToks := (words case).drop 2
   let rec firstDiff (k : Nat) : List String → List String → Nat
     | a :: as, b :: bs => if a == b then firstDiff (k + 1) as bs else k
